@@ -107,7 +107,9 @@ func domains() []domain {
 	add("float64", float64(0), func(r *vmon.Rng) interface{} { return fl(r) })
 	add("float32", float32(0), func(r *vmon.Rng) interface{} { return float32(fl(r)) })
 	add("string", "", func(r *vmon.Rng) interface{} {
-		return pick(r, "", "a", "b", "5", "5.0", "05", "true", "0x10", "16", " ", "a\x00", "é", "long string value ............................................. x")
+		// among them different spellings of one number: strings are compared as strings
+		return pick(r, "", "a", "b", "5", "5.0", "05", "+5", "5e0", "true", "0x10", "16", " ", "a\x00", "é", "long string value ............................................. x",
+			"NaN", "NaN", "Inf", "+Inf", "inf", "-0", "0", "0.5", "0.50", ".5", "1e3", "1000", "1000.0")
 	})
 	add("bool", false, func(r *vmon.Rng) interface{} { return r.Bool() })
 	add("struct", S{}, func(r *vmon.Rng) interface{} {
@@ -300,6 +302,28 @@ func TestC18(t *testing.T) {
 				rep.Violate(key("C18/in-panics"), fmt.Sprintf("In(%s,%s,%s)(%s): %v", show(x), show(y), show(z), show(a), p3), c)
 			} else if gotIn != wantIn {
 				rep.Violate(key("C18/in-not-union"), fmt.Sprintf("In(%s,%s,%s)(%s) = %v, union of Equals says %v", show(x), show(y), show(z), show(a), gotIn, wantIn), c)
+			}
+		}
+		// In with one and with two alternatives (a single alternative that is itself a slice, map or array is ONE value)
+		for _, alts := range [][]interface{}{{x}, {y, x}} {
+			ok := true
+			wantN := false
+			for _, al := range alts {
+				if excludedPair(al, a) {
+					ok = false
+				} else {
+					wantN = wantN || oracle(d, al, a)
+				}
+			}
+			if !ok {
+				continue
+			}
+			gotN, pN := evalExpr(arg.In(alts...), pt, a)
+			rep.Eval(1)
+			if pN != nil {
+				rep.Violate(key("C18/in-panics"), fmt.Sprintf("In%v(%s) on %s: %v", showAll(alts), show(a), pt, pN), c)
+			} else if gotN != wantN {
+				rep.Violate(key("C18/in-not-union"), fmt.Sprintf("In%v(%s) on %s = %v, union of Equals says %v", showAll(alts), show(a), pt, gotN, wantN), c)
 			}
 		}
 		// one In object with four alternatives, resolved once, then queried repeatedly: every answer is the union of Equals
